@@ -528,8 +528,34 @@ def cfg_text(name, **subst):
     return text
 
 
-def run_exhaustive(ctx, name, cfg, constants):
-    res = tlc.run("BitIO", cfg, dump=True, workers=1)
+JVM_ENV = {"JAVA_TOOL_OPTIONS": "-XX:ParallelGCThreads=2 -XX:CICompilerCount=2"}
+
+
+def tlc_parallel(jobs):
+    """Run several single-worker TLC jobs concurrently (threads); jobs = [(module, cfg, kwargs)]."""
+    import threading
+
+    out = [None] * len(jobs)
+
+    def one(i):
+        mod, cfg, kw = jobs[i]
+        try:
+            out[i] = tlc.run(mod, cfg, workers=1, env=JVM_ENV, **kw)
+        except BaseException as e:  # noqa
+            out[i] = e
+
+    ths = [threading.Thread(target=one, args=(i,)) for i in range(len(jobs))]
+    for t in ths:
+        t.start()
+    for t in ths:
+        t.join()
+    for r in out:
+        if isinstance(r, BaseException):
+            raise r
+    return out
+
+
+def run_exhaustive(ctx, name, res, constants):
     ctx.add_tlc(res, name, constants)
     parts = common.pmap(work_chunk, chunk_offsets(res.dump_path, 128), chunksize=1)
     tot = merge(parts)
@@ -600,8 +626,17 @@ def run(ctx):
     quick = ctx.quick
     wconst = {"Modes": ["w"], "MaxLen": ctx.pick(3, 4)}
     rconst = {"Modes": ["r"], "MaxLen": ctx.pick(2, 2), "MaxBits": ctx.pick(8, 10), "Pads": [0, 1]}
-    wres, wtot = run_exhaustive(ctx, "writer programs (exhaustive)", cfg_text(CFG_W, MaxLen=wconst["MaxLen"]), wconst)
-    rres, rtot = run_exhaustive(ctx, "reader programs over every file (exhaustive)", cfg_text(CFG_R, MaxLen=rconst["MaxLen"], MaxBits=rconst["MaxBits"]), rconst)
+    jobs = [
+        ("BitIO", cfg_text(CFG_W, MaxLen=wconst["MaxLen"]), {"dump": True}),
+        ("BitIO", cfg_text(CFG_R, MaxLen=rconst["MaxLen"], MaxBits=rconst["MaxBits"]), {"dump": True}),
+    ]
+    if not quick:
+        jobs.append(("BitIORef", "mc/BitIORef.cfg", {}))
+    results = tlc_parallel(jobs)
+    wres, wtot = run_exhaustive(ctx, "writer programs (exhaustive)", results[0], wconst)
+    rres, rtot = run_exhaustive(ctx, "reader programs over every file (exhaustive)", results[1], rconst)
+    if not quick:
+        ctx.add_tlc(results[2], "lemma: closed-form operators = literal current-byte machine (BitIORef)", {"MaxLen": 3})
     tots = [wtot, rtot]
     sims = 0
     if not quick:
@@ -609,7 +644,7 @@ def run(ctx):
             ("writer", cfg_text(CFG_W, MaxLen=14), 6000, 14),
             ("reader", cfg_text(CFG_R, MaxLen=12, MaxBits=10), 6000, 12),
         ):
-            sim = tlc.run("BitIO", cfg, simulate=n, depth=depth, seed=ctx.seed, workers=1)
+            sim = tlc.run("BitIO", cfg, simulate=n, depth=depth, seed=ctx.seed, workers=1, env=JVM_ENV)
             files = sorted(glob.glob(os.path.join(sim.sim_dir, "tr*")))
             stot = merge(common.pmap(work_simfile, files))
             sims += stot["n"]
